@@ -33,7 +33,7 @@ type c14Fmt struct {
 }
 
 func checkC14(c *Ctx) {
-	c.rule = "(1) text operations through the element API: for texts over ASCII/CJK/astral/combining characters, 长度 == 字数 == len(字符组) == number of code points; 取样(i,j) for every pair in [-(n+2), n+2]^2 (all pairs for n<=10, random beyond): inside 1<=i<=j<=n it must equal characters i..j of 字符组 joined, elsewhere any result must be valid UTF-8 (never half a character); 分隔 then 拼接 with the same separator is the identity; the same laws through Zn programs; (2) formatting ‹template› % ‹list› through Zn programs: templates mixing literal text and the documented placeholders {} {#} {#.N} {#+} {#.N%} {#.NE} (N in 0..40) with doubles from a boundary pool and random; expected text built from Python %-formatting; templates that must be errors (count mismatch, numeric directive on a non-number, unbalanced/nested braces, directive not starting with #, # followed by other characters, absurd precision). distinct_nontrivial = distinct (family, text shape / directive sequence, outcome)"
+	c.rule = "(1) text operations through the element API: for texts over ASCII/CJK/astral/combining characters, 长度 == 字数 == len(字符组) == number of code points; 取样(i,j) for every pair in [-(n+2), n+2]^2 (all pairs for n<=10, random beyond): inside 1<=i<=j<=n it must equal characters i..j of 字符组 joined, elsewhere any result must be valid UTF-8 (never half a character); every pair is repeated on a shadow text of equally many distinct one-byte characters and must select the same positions with the same outcome kind (counting must not depend on byte lengths); 分隔 then 拼接 with the same separator is the identity; the same laws through Zn programs; (2) formatting ‹template› % ‹list› through Zn programs: templates mixing literal text and the documented placeholders {} {#} {#.N} {#+} {#.N%} {#.NE} (N in 0..40) with doubles from a boundary pool and random; expected text built from Python %-formatting; templates that must be errors (count mismatch, numeric directive on a non-number, unbalanced/nested braces, directive not starting with #, # followed by other characters, absurd precision). distinct_nontrivial = distinct (family, text shape / directive sequence, outcome)"
 	c.assumptions = []string{"Python % formatting is the reference for the numeric directives", "{} is exercised with texts, booleans, 空 and small integers only (display spelling of doubles is unspecified)", "percent rendering is judged only where x*100 in double and exact decimal scaling agree"}
 	rng := c.Rand("c14")
 	py, err := startPyOracle(c.Root)
@@ -84,6 +84,7 @@ func checkC14(c *Ctx) {
 		}
 		reqs[i] = Req{Op: "api", Recv: &rv, Steps: steps, Mode: "nostate"}
 	}
+	sliceOutcome := make([][]string, len(jobs)) // per job, per pair: "err" | "ok:<result>" (for the shadow comparison below)
 	c.runBatches(reqs, 20, func(i int, req *Req, resp *Resp) {
 		j := jobs[i]
 		rs := []rune(j.text)
@@ -94,6 +95,17 @@ func checkC14(c *Ctx) {
 			c.Violation("textops:outcome:"+key, fmt.Sprintf("text %s: worker outcome %s %s", key, resp.Kind, clip(resp.Panic+resp.Stderr, 300)), rp)
 			return
 		}
+		so := make([]string, len(j.pairs))
+		for k := range j.pairs {
+			st := resp.Steps[3+k]
+			so[k] = st.Kind
+			if st.Kind == "ok" && st.Val.T == "text" {
+				so[k] = "ok:" + st.Val.S()
+			}
+		}
+		c.mu.Lock()
+		sliceOutcome[i] = so
+		c.mu.Unlock()
 		c.Count("evaluations", int64(len(resp.Steps)))
 		for k := 0; k < 2; k++ {
 			s := resp.Steps[k]
@@ -139,6 +151,71 @@ func checkC14(c *Ctx) {
 				}
 			default:
 				c.Violation(fmt.Sprintf("textops:slice-%s:%s/%d/%d", s.Kind, key, a, b), fmt.Sprintf("以%s（取样：%d、%d）: %s %s", key, a, b, s.Kind, clip(s.Panic, 200)), rp)
+			}
+		}
+	})
+	// "count characters consistently": what 取样 does with a pair of positions - also negative
+	// and out-of-range ones, whose meaning the statement does not fix - may depend on the number of
+	// characters only, never on how many bytes they take. Each text is sliced again as a shadow
+	// of equally many distinct one-byte characters; outcome kind and the selected positions
+	// must agree for every pair.
+	sreqs := []Req{}
+	sjobs := []int{}
+	for i, j := range jobs {
+		n := utf8.RuneCountInString(j.text)
+		if n < 1 || n > 90 || !utf8.ValidString(j.text) {
+			continue
+		}
+		sh := make([]rune, n)
+		for k := range sh {
+			sh[k] = rune(33 + k)
+		}
+		steps := []Step{}
+		for _, p := range j.pairs {
+			steps = append(steps, Step{Kind: "call", Name: "取样", Args: []Val{Num(float64(p[0])), Num(float64(p[1]))}})
+		}
+		rv := Text(string(sh))
+		sreqs = append(sreqs, Req{Op: "api", Recv: &rv, Steps: steps, Mode: "nostate"})
+		sjobs = append(sjobs, i)
+	}
+	c.runBatches(sreqs, 20, func(si int, req *Req, resp *Resp) {
+		i := sjobs[si]
+		j := jobs[i]
+		rs := []rune(j.text)
+		c.mu.Lock()
+		orig := sliceOutcome[i]
+		c.mu.Unlock()
+		if orig == nil || resp.Kind != "ok" || len(resp.Steps) != len(j.pairs) {
+			return
+		}
+		for k, p := range j.pairs {
+			st := resp.Steps[k]
+			c.Eval()
+			c.Count("shadow_slices_compared", 1)
+			want := st.Kind
+			if st.Kind == "ok" && st.Val.T == "text" {
+				sub := []rune(st.Val.S())
+				// the shadow's characters are distinct and increasing: the result names its positions
+				okPos := true
+				for x := range sub {
+					if sub[x] < 33 || int(sub[x]-33) >= len(rs) || (x > 0 && sub[x] != sub[x-1]+1) {
+						okPos = false
+					}
+				}
+				if !okPos {
+					continue
+				}
+				if len(sub) == 0 {
+					want = "ok:"
+				} else {
+					start := int(sub[0] - 33)
+					want = "ok:" + string(rs[start:start+len(sub)])
+				}
+			}
+			if orig[k] != want {
+				c.Violation(fmt.Sprintf("textops:slice-bytes:%q/%d/%d", j.text, p[0], p[1]),
+					fmt.Sprintf("以%q（取样：%d、%d） -> %q, but the same positions on a text of %d one-byte characters select %q: the result depends on byte lengths, not on character counts", j.text, p[0], p[1], orig[k], len(rs), want),
+					map[string]interface{}{"reqs": []Req{{Op: "api", Recv: reqs[i].Recv, Steps: []Step{reqs[i].Steps[3+k]}, Mode: "nostate"}, {Op: "api", Recv: req.Recv, Steps: []Step{req.Steps[k]}, Mode: "nostate"}}})
 			}
 		}
 	})
